@@ -34,7 +34,7 @@ def catalogue():
     for ndom in (1, 2, 3, 4):
         for names in (("sync", "pix", "aux", "b"), ("zeta", "alpha", "mid", "b2")):
             for hier in ("flat", "sub", "anon"):
-                for extra in ("none", "mem", "inst", "clash"):
+                for extra in ("none", "mem", "inst", "clash", "attrs"):
                     specs.append({"ndom": ndom, "names": names[:ndom], "hier": hier, "extra": extra})
     return specs
 
@@ -72,6 +72,21 @@ def build_design(spec):
         m.d.comb += [wp.addr.eq(data[:2]), wp.data.eq(data), wp.en.eq(data[3]), rp.addr.eq(data[2:])]
         o = Signal(4, name="omem")
         m.d.comb += o.eq(rp.data)
+        outs.append(o)
+    if spec["extra"] == "attrs":
+        # several signals naming the same combinational nets, each with its own attributes; an enum-shaped alias
+        from amaranth.lib import enum as aenum
+
+        class Kind(aenum.Enum, shape=4):
+            Z = 0
+            A = 1
+            B = 2
+        total = Signal(4, name="total", attrs={"keep": 1})
+        dbg = Signal(4, name="dbg", attrs={"mark_debug": "true"})
+        kind = Signal(Kind, name="kind", attrs={"fsm_encoding": "none"})
+        m.d.comb += [total.eq(data + 3), dbg.eq(total), kind.eq(dbg)]
+        o = Signal(4, name="oattr")
+        m.d.comb += o.eq(kind.as_value())
         outs.append(o)
     if spec["extra"] == "inst":
         q = Signal(2, name="q")
@@ -121,6 +136,20 @@ def elab_work(task):
         except Exception as ex:
             out["violations"].append({"sig": sig + ":convert-raises", "what": f"{spec}: {type(ex).__name__}: {ex}", "payload": {"kind": "elab", "spec": spec}})
             continue
+        # the SAME design object converted repeatedly (state left behind by an earlier conversion must not leak into a later one)
+        try:
+            from amaranth.back import rtlil
+            with warnings.catch_warnings():
+                warnings.simplefilter("ignore")
+                m_, ports_ = build_design(spec)
+                same = [rtlil.convert(m_, ports=ports_, emit_src=False) for _ in range(3)]
+            if same[0] != t1 or same[1] != same[0] or same[2] != same[0]:
+                k = 1 if same[1] != same[0] else (2 if same[2] != same[0] else 0)
+                out["violations"].append({"sig": sig + ":same-object-reconverted", "what": f"{spec}: converting the same design object again gives different RTLIL: "
+                                          f"{first_line_diff(same[0] if k else t1, same[k])}", "payload": {"kind": "elab", "spec": spec}})
+        except Exception as ex:
+            out["violations"].append({"sig": sig + ":reconvert-raises", "what": f"{spec}: converting the same design object twice raises {type(ex).__name__}: {ex}",
+                                      "payload": {"kind": "elab", "spec": spec}})
         out["cov"]["designs"] += 1
         out["cov"]["traces_validated_against_impl"] += 1
         if t1 != t2:
